@@ -28,8 +28,8 @@ def main():
     m = re.search(r"cp\s+(\S+)\s+(\S+)", cmd)
     src, dst = m.group(1), m.group(2).replace("<repo>/", "")
     srcf = os.path.join(out, src) if not os.path.isabs(src) else src
-    if dst.endswith("/"):
-        dst += os.path.basename(src)
+    if dst in ("", ".", "./") or dst.endswith("/"):
+        dst = os.path.join(dst, os.path.basename(src))
     gt = cmd[cmd.index("go test"):]
     wt = "/tmp/seedcheck-%s-%s" % (pid, n)
     sh("git -C /repo worktree remove --force %s" % wt)
